@@ -402,8 +402,70 @@ def run_L(case):
     return {"behaviour": [case["span"], beh], "violations": viol, "stats": {"predicts": n}}
 
 
+# M: meters whose readings are exactly constant over part of the temperature range (a gas furnace at 0 all summer, a chiller at 0 all
+# winter, the same with 0.01-unit resolution or a constant pilot flame): the hourly model fitted on each, predicting its own baseline,
+# a summer and a winter window of another weather year, with and without usage
+METER_SHAPES = {
+    "heating_only_zero_when_warm": lambda t, e: np.clip(0.1 * (60 - t) + e, 0, None),
+    "cooling_only_zero_when_cold": lambda t, e: np.clip(0.1 * (t - 65) + e, 0, None),
+    "heating_only_two_decimals": lambda t, e: np.round(np.clip(0.1 * (60 - t) + e, 0, None), 2),
+    "heating_only_constant_pilot": lambda t, e: 0.01 + np.clip(0.1 * (60 - t) + e, 0, None),
+    "heating_and_cooling_zero_between": lambda t, e: np.clip(0.1 * (55 - t) + e, 0, None) + np.clip(0.1 * (t - 70) + e, 0, None),
+}
+METER_WINDOWS = [("summer", "2022-06-15", 60), ("winter", "2022-12-01", 60)]
+
+
+def meter_cases(tier):
+    zones = ["America/Chicago", "Australia/Sydney"] if tier == "thorough" else ["America/Chicago"]
+    return [{"part": "M", "shape": s, "zone": z} for s in METER_SHAPES for z in zones]
+
+
+def run_M(case):
+    import opendsm.eemeter as em
+
+    zone, shape = case["zone"], case["shape"]
+    viol, beh, n = [], [], 0
+
+    def frame(start, days, wseed):
+        fr = ds.hourly_frame(start=start, days=days, tz=zone, wseed=wseed, seed=0)
+        e = np.random.default_rng(wseed).normal(0, 0.1, len(fr))
+        fr["observed"] = METER_SHAPES[shape](fr["temperature"].to_numpy(float), e)
+        return fr
+
+    base = frame("2021-01-01", 365, 0)
+    key0 = {"family": "hourly", "part": "meter_shapes", "shape": shape}
+    try:
+        bdata = em.HourlyBaselineData(base, is_electricity_data=False)
+        model = em.HourlyModel(settings={"seed": 7}).fit(bdata)
+    except Exception as exc:
+        return {"behaviour": [shape, "fit_refused", type(exc).__name__], "violations": [], "stats": {"predicts": 0}}
+    sets = [("baseline", bdata)] + [(w, em.HourlyReportingData(frame(st, d, 3), is_electricity_data=False)) for w, st, d in METER_WINDOWS]
+    sets += [(w + "_no_usage", em.HourlyReportingData(frame(st, d, 3)[["temperature"]], is_electricity_data=False)) for w, st, d in METER_WINDOWS]
+    for holder in ("fitted", "reloaded"):
+        mdl = model if holder == "fitted" else em.HourlyModel.from_json(model.to_json())
+        for name, data in sets:
+            key = dict(key0, window=name)
+            try:
+                n += 1
+                p = mdl.predict(data)
+            except Exception as exc:
+                viol.append({"clause": "predict_raised", "key": dict(key, exc=type(exc).__name__),
+                             "detail": f"{shape} {zone} {holder} model on {name}: {type(exc).__name__}: {str(exc)[:200]}"})
+                continue
+            if not p.index.equals(data.df.index):
+                viol.append({"clause": "index_differs", "key": key, "detail": f"{shape} {zone} {name}: {len(p)} rows vs {len(data.df)}"})
+                continue
+            bad = ~np.isfinite(p["predicted"].to_numpy(float))
+            if bad.any():
+                viol.append({"clause": "non_finite_hourly_prediction", "key": key,
+                             "detail": f"{shape} {zone} {holder} model on {name}: {int(bad.sum())} of {len(p)} rows not finite, first "
+                                       f"{p.index[int(np.flatnonzero(bad)[0])]}; edge-bin coefficients {model._T_edge_bin_coeffs}"})
+            beh.append([holder, name, int(bad.sum())])
+    return {"behaviour": [shape, beh], "violations": viol, "stats": {"predicts": n}}
+
+
 def run_case(case):
-    return {"H": run_H, "D": run_D, "L": run_L}[case["part"]](case)
+    return {"H": run_H, "D": run_D, "L": run_L, "M": run_M}[case["part"]](case)
 
 
 def run(tier, seed):
@@ -412,18 +474,22 @@ def run(tier, seed):
         exH = explore.explore(pool, "H hourly: zone classes x transitions", MOD, "run_case", hc, seed=seed)
         exD = explore.explore(pool, "D daily/billing: zone classes x transitions", MOD, "run_case", dc, seed=seed)
         exL = explore.explore(pool, "L spans holding several transitions", MOD, "run_case", long_cases(tier), seed=seed, chunk=1)
+        exM = explore.explore(pool, "M meters constant over part of the temperature range", MOD, "run_case", meter_cases(tier), seed=seed, chunk=1)
     cov = explore.merge_coverage(
-        [exH, exD, exL],
+        [exH, exD, exL, exM],
         rule="H: one case = (zone signature class, UTC-offset transition); frames of 3 and 2 local days with the transition day in the "
         "middle / first / last, with and without usage, through HourlyReportingData and HourlyModel.predict, plus the slot-level check; "
         "D: one case = (zone class, transition of the chosen years): 10 daily rows / 70 days of billing reads around it x "
         "{no defect, NaN temperature on / after the transition day, on the first / last two days of the frame, NaN usage} x usage present/absent; L: one case = (zone, span of 230-730 "
         "days holding two to four clock changes in either order): hourly predict with/without usage, daily predict with a season-split "
-        "and a day-type-split model over the span and over 40 days inside one season",
+        "and a day-type-split model over the span and over 40 days inside one season; M: one case = (meter shape exactly constant over part of "
+        "the temperature range: heating-only at 0 when warm, cooling-only at 0 when cold, two-decimal resolution, constant pilot, zero "
+        "between heating and cooling; zone): hourly model fitted on it, the fitted and the reloaded model predict the baseline, a summer "
+        "and a winter window of another weather year with and without usage - every prediction finite",
     )
     cov.update(info)
-    cov["predict_calls"] = exH.stats.get("predicts", 0) + exD.stats.get("predicts", 0) + exL.stats.get("predicts", 0)
-    return {"level": LEVEL, "coverage": cov, "violations": exH.violations + exD.violations + exL.violations, "assumptions": ASSUMPTIONS}
+    cov["predict_calls"] = exH.stats.get("predicts", 0) + exD.stats.get("predicts", 0) + exL.stats.get("predicts", 0) + exM.stats.get("predicts", 0)
+    return {"level": LEVEL, "coverage": cov, "violations": exH.violations + exD.violations + exL.violations + exM.violations, "assumptions": ASSUMPTIONS}
 
 
 def replay(rep):
